@@ -75,6 +75,8 @@ type Case struct {
 	// directory with a file in it and an empty directory that are none of fs_db's business (a mount point's
 	// lost+found, somebody's notes). fs_db must leave them alone and must not put content there.
 	Foreign bool `json:"foreign,omitempty"`
+	// FastGC: the database's periodic collector runs every millisecond (in the background, at moments of its own)
+	FastGC bool `json:"fast_gc,omitempty"`
 	// OddPath: the database and its roots live under a directory whose name contains glob and format metacharacters
 	OddPath bool `json:"odd_path,omitempty"`
 	// ShareRoot (C05): the other databases of the process (op otherdb, Others) keep their contents under the
@@ -165,6 +167,16 @@ func newWorldStruct(c Case, r *ev.Result) *World {
 	return &World{Case: c, R: r, M: model.New(), handles: map[int]*handle{}, byHash: map[[32]byte]string{}, Stats: map[string]int{}, ctx: ctx}
 }
 
+// gcPeriod: the database's own periodic collector is normally out of the way (one hour); with FastGC it runs
+// every millisecond in the background of the whole history - whenever it runs, it must not change what
+// anybody reads, and transactions simply get old (hundreds of collector periods) while the history goes on.
+func gcPeriod(c Case) time.Duration {
+	if c.FastGC {
+		return time.Millisecond
+	}
+	return time.Hour
+}
+
 func b2i(b bool) int {
 	if b {
 		return 1
@@ -187,7 +199,7 @@ func (w *World) setCfg() {
 		roots = append(roots, p)
 	}
 	w.Cfg = config.Config{
-		Storage: config.Storage{DbPath: filepath.Join(w.Dir, "db"), MaxDirCount: w.Case.MaxDir, RootDirs: roots, GCPeriod: time.Hour},
+		Storage: config.Storage{DbPath: filepath.Join(w.Dir, "db"), MaxDirCount: w.Case.MaxDir, RootDirs: roots, GCPeriod: gcPeriod(w.Case)},
 		WPool:   config.WPool{NumWorkers: max(w.Case.Workers, 0) + 2*b2i(w.Case.Workers <= 0), SendDuration: time.Millisecond},
 	}
 }
@@ -710,7 +722,24 @@ func (w *World) readKey(id int, key string, useReader bool) ([]byte, error) {
 		}
 		return full, nil
 	}
-	b, rerr := io.ReadAll(rc)
+	var b []byte
+	var rerr error
+	if (w.step+len(key))%8 == 3 {
+		// a caller that looks at the first bytes (a magic number, say) and then hands the reader to io.Copy,
+		// which uses the reader's WriteTo if it has one
+		head := make([]byte, 16)
+		n, herr := io.ReadFull(rc, head)
+		var rest bytes.Buffer
+		if herr == nil {
+			_, rerr = io.Copy(&rest, rc)
+		} else if herr != io.EOF && herr != io.ErrUnexpectedEOF {
+			rerr = herr
+		}
+		b = append(head[:n], rest.Bytes()...)
+		w.Stats["reader-sniffed-then-copied"]++
+	} else {
+		b, rerr = io.ReadAll(rc)
+	}
 	cerr := rc.Close()
 	if rerr != nil {
 		return nil, fmt.Errorf("read from GetReader: %w", rerr)
@@ -996,9 +1025,9 @@ func (w *World) apply(i int, op Op) bool {
 			return true
 		}
 		key := w.key(op.Key)
-		if op.K == "del" && key == "" {
-			return true // Delete of the empty key is not specified
-		}
+		// (Delete of the empty key: fs_db accepts it - nothing can be stored under the empty key, so it never
+		// changes what anybody reads, but it is a write like any other: it belongs to its transaction's write
+		// set and takes part in the conflict rule)
 		var err error
 		v := model.Val{Del: true}
 		if op.K == "set" {
@@ -1336,9 +1365,6 @@ func (w *World) ApplyDry(i int, op Op) {
 			return
 		}
 		key := w.key(op.Key)
-		if op.K == "del" && key == "" {
-			return
-		}
 		v := model.Val{Del: true}
 		if op.K == "set" {
 			v = model.Val{Len: op.Len, Seed: uint32(i + 1)}
